@@ -729,6 +729,7 @@ func c44Apply(w *vx.W, s *c44State, op c44Op) bool {
 				w.Failf(sig+"/"+c44Pair(ie, re), "%v: memFS %v, native %v; %s", op, ie, re, before)
 				return false
 			}
+			sig = "C44/File.Stat/" + c44HKind(h)
 			if ie == nil && !c44SameInfo(w, sig, op, ii, ri, h.opened == "/") {
 				return false
 			}
@@ -1032,20 +1033,30 @@ func TestVerif_C44(t *testing.T) {
 		for _, f := range c44Flags {
 			allFlags = append(allFlags, f.name)
 		}
-		c.Rule("differential breadth-first search with state deduplication: every operation sequence up to the stated depth (beyond each seed prefix) over Mkdir/OpenFile(7 flag sets)/RemoveAll/Stat/Rename on a small namespace (top-level, nested, a '..' alias; a name becomes an 'under-file' path when its parent is a file) and Write/Read/Seek/Readdir/Stat/Close on up to 2 open handles is applied to NewMemFS() and to Dir(fresh temporary directory); compared after every operation: success vs failure, byte counts and bytes read, seek offsets, FileInfo kind/size/name, Readdir counts/names/kinds, the complete trees (names, kinds, file contents; memFS read white-box, native tree read with os.ReadDir/ReadFile), the identity (current path or unlinked) and offset of every open handle; state = tree + handles (node, access mode, offset, entries consumed); a divergence prunes the branch; non-trivial = operation applied to both and compared")
+		c.Rule("differential breadth-first search with state deduplication: every operation sequence up to the stated depth (part 'fs': from the empty tree; part 'fs-seeded': beyond each of three prefixes that build two directories / a directory holding a 5-byte file / an open read-write handle at offset 5) over Mkdir/OpenFile(7 flag sets)/RemoveAll/Stat/Rename on a small namespace (top-level, nested, a '..' alias; a name becomes an 'under-file' path when its parent is a file) and Write/Read/Seek/Readdir/Stat/Close on up to 2 open handles is applied to NewMemFS() and to Dir(fresh temporary directory); compared after every operation: success vs failure, byte counts and bytes read, seek offsets, FileInfo kind/size/name, Readdir counts/names/kinds, the complete trees (names, kinds, file contents; memFS read white-box, native tree read with os.ReadDir/ReadFile), the identity (current path or unlinked) and offset of every open handle; state = tree + handles (node, access mode, offset, entries consumed); a divergence prunes the branch; non-trivial = operation applied to both and compared")
 		c.Assume("not compared (latitude of the FileSystem contract / POSIX): Rename onto an existing different entry (disabled), permission bits and times, error identities (only nil vs non-nil), O_APPEND/O_SYNC, O_RDONLY|O_TRUNC, zero-length Read, Seek on directory handles, Readdir on a handle whose directory changed, moved or was removed after it was opened, which entries a partial Readdir returns (only their number, membership and non-repetition), sizes of directories, the name of the root, use of a handle after Close")
 		c.Assume("the reference is the os package on the host (Linux) through webdav.Dir; Dir itself is trusted here (C45 covers it); must-hold clauses (rename of/onto the root, removal of the root, rename of a directory into its own subtree fail) are checked on memFS regardless of the reference")
 
 		paths := []string{"/", "/a", "/b", "/a/x", "/a/../b"}
 		mk := func(p string) c44Op { return c44Op{K: "mkdir", P: p} }
-		c44Run(c, base, c44Cfg{part: "fs",
+		populated := [][]c44Op{
+			{mk("/a"), mk("/b")},
+			{mk("/a"), {K: "open", P: "/a/x", F: "RDWR|CREATE"}, {K: "write", H: 0, D: "cdefg"}, {K: "close", H: 0}},
+			{{K: "open", P: "/a", F: "RDWR|CREATE"}, {K: "write", H: 0, D: "cdefg"}},
+		}
+		cfg := c44Cfg{
 			paths: paths, flags: allFlags, maxH: vx.Pick(c, 1, 2),
 			write: []string{"", "ab", "cdefg"}, read: []int{1, 10},
 			seek: []int64{-1, 0, 1, 10}, rdir: []int{-1, 0, 1},
-			depth: vx.Pick(c, 4, 6),
-			seeds: [][]c44Op{nil, {mk("/a"), mk("/b")},
-				{mk("/a"), {K: "open", P: "/a/x", F: "RDWR|CREATE"}, {K: "write", H: 0, D: "cdefg"}, {K: "close", H: 0}},
-				{{K: "open", P: "/a", F: "RDWR|CREATE"}, {K: "write", H: 0, D: "cdefg"}}},
-		})
+		}
+		// from the empty tree
+		g := cfg
+		g.part, g.depth, g.seeds = "fs", vx.Pick(c, 4, 6), [][]c44Op{nil}
+		c44Run(c, base, g)
+		// from populated trees (two directories; a directory holding a 5-byte
+		// file; an open read-write handle at offset 5 of a 5-byte file)
+		g = cfg
+		g.part, g.depth, g.seeds = "fs-seeded", vx.Pick(c, 3, 5), populated
+		c44Run(c, base, g)
 	})
 }
